@@ -3,9 +3,12 @@
     stream `c12` :
       (c12 (cfg http|grpc proto|json GZIP LIMIT) (sig LOGS TRACES METRICS) (dead SIGNAL…)
            (events (ev ID log|span|metric xMDL PAD SIZE)…)
-           (script (logs R…) (traces R…) (metrics R…)))
+           (script (logs R…) (traces R…) (metrics R…)) (end flush|drop))
       R ::= ack | ackbody | (status N) | (grpc N) | (grpch N) | stall | rstb | rsta
-      → `logs=[E…] traces=[E…] metrics=[E…] flush=true`   E ::= <ids joined by , | ?>:<resp>:<n|r>
+      → `logs=[E…] traces=[E…] metrics=[E…] flush=true|dropped`   E ::= <ids joined by , | ?>:<resp>:<n|r>
+  `(end drop)`: the emitter is dropped instead of flushed; each signal's worker still processes what is queued
+  (batcher: a closed channel gets "a chance to emit any last batch"; client.rs:290-293 after the `fix:` waits for
+  every signal's receiver), so the model runs the same functions and only the last token differs.
   The encoding (proto|json), gzip flag, module and padding are transport/encoder details the model is
   indifferent to (that indifference is part of what the stream checks); SIZE is the encoded payload length.
   The driver executes `route` (C14) to assign events to signals and `runSignal` per signal — the functions the
@@ -84,7 +87,7 @@ def runC12 (line : String) : String :=
   match Sexp.parse line with
   | some (.list [.atom "c12", .list [.atom "cfg", tr, enc, gz, lim], .list [.atom "sig", l, t, m],
                  .list (.atom "dead" :: dead), .list (.atom "events" :: evs),
-                 .list [.atom "script", sl, st, sm]]) =>
+                 .list [.atom "script", sl, st, sm], .list [.atom "end", .atom endMode]]) =>
     let tr? : Option Transport := match tr with | .atom "http" => some .http | .atom "grpc" => some .grpc | _ => none
     let enc? : Option Bool := match enc with | .atom "proto" => some false | .atom "json" => some true | _ => none
     match tr?, enc?, gz.bool?, lim.nat?, l.bool?, t.bool?, m.bool?, dead.mapM signalName?, evs.mapM ev?,
@@ -92,6 +95,7 @@ def runC12 (line : String) : String :=
     | some tr, some json, some _, some limit, some l, some t, some m, some dead, some evs,
       some sl, some st, some sm =>
       if tr == .grpc && json then "bad-op"
+      else if endMode != "flush" && endMode != "drop" then "bad-op"
       else if tr == .http && (sl ++ st ++ sm).any (fun r => match r with | .grpc _ => true | .grpcH _ => true | _ => false) then "bad-op"
       else if hasDup (evs.map (·.ev.id)) then "bad-op"
       else
@@ -109,7 +113,7 @@ def runC12 (line : String) : String :=
         let sg :=
           if evs.isEmpty then "trivial"
           else s!"tr={if tr == .http then "http" else "grpc"},json={json},reqs={min ln 6}/{min tn 6}/{min mn 6},fails={min (lf + tf + mf) 12},dead={dead.length},delivered={lok && tok && mok}"
-        s!"logs=[{ls}] traces=[{ts}] metrics=[{ms}] flush=true\t{sg}"
+        s!"logs=[{ls}] traces=[{ts}] metrics=[{ms}] flush={if endMode == "drop" then "dropped" else "true"}\t{if sg == "trivial" then sg else sg ++ ",end=" ++ endMode}"
     | _, _, _, _, _, _, _, _, _, _, _, _ => "bad-op"
   | _ => "bad-op"
 
